@@ -21,6 +21,7 @@ ERASE_METHODS = (
     "std::borrow::Borrow::borrow",
     "std::string::String::as_str",
     "std::boxed::Box::<T>::new",
+    "std::iter::IntoIterator::into_iter",
     # borrowed views of an Option / Result / String: the same value for every test and projection made on it
     "std::option::Option::<T>::as_ref",
     "std::option::Option::<T>::as_mut",
